@@ -10,6 +10,15 @@
    and, for longer chains, the states visited by `-simulate`.
 4. Every exported terminal state is replayed on every real atom of its class (harness/replay_curvature.py).
 """
+# ------------------------------------------------------------------------------------------------------------
+# THE ONE SWITCH.  Names of the C10 defect classes whose repair is in the tree under test (/repo by default).
+# Empty = unrepaired tree.  After a `fix:` commit in /repo add the name of the class it repairs:
+#   'lateobj' 'pwcheck' 'pwzero' 'zerodiv' 'dropersp' 'perspcs' 'pwconst'      (described below)
+# The list is passed to Curvature.tla as the constant `Fixed`: for a listed name the spec uses the transcription of
+# the repaired code and its Known_<name> exception of the ideal invariants is switched off.
+# VERIF_C10_FIXED=a,b,... (environment) overrides the list, to try a patch in a scratch tree given by VERIF_REPO.
+FIXED = []
+# ------------------------------------------------------------------------------------------------------------
 import collections
 import os
 import random
@@ -30,11 +39,19 @@ from harness.tlc import tla
 #   perspcs   dro.Model.ro_to_roc reshapes a numeric perspective scale (dro.py:575)
 #   pwconst   a numeric piece compared with a number is a Python bool inside PWConstr.pieces (lp.py:2668, 2678)
 #   sum       C06: Convex.sum records sum_axis which nothing reads; PerspConvex.sum loses affine_scale (lp.py:2537-2543)
-# names of defects whose repair is in the tree under test (selects the transcription of the repaired code);
-# VERIF_C10_FIXED=a,b,... overrides (to try a candidate patch in a scratch tree given by VERIF_REPO)
-FIXED = set()
-if os.environ.get('VERIF_C10_FIXED') is not None:
-    FIXED = set(os.environ['VERIF_C10_FIXED'].split(',')) - {''}
+FIXABLE = ['lateobj', 'pwcheck', 'pwzero', 'zerodiv', 'dropersp', 'perspcs', 'pwconst']
+
+
+def active_fixed():
+    """FIXED (or the environment override), validated."""
+    names = FIXED
+    if os.environ.get('VERIF_C10_FIXED') is not None:
+        names = [n for n in os.environ['VERIF_C10_FIXED'].split(',') if n]
+    unknown = sorted(set(names) - set(FIXABLE))
+    if unknown:
+        raise tlc.MachineryError('unknown name(s) in FIXED / VERIF_C10_FIXED: %s (known: %s)' % (unknown, FIXABLE))
+    return set(names)
+
 
 CLASSES = ['cvx_lin', 'cvx_sq', 'ccv_sq', 'ccv_lin', 'cvx_div', 'ccv_div', 'cvx_div_sum', 'ccv_div_sum',
            'pcvx', 'pccv', 'pcvx_cs', 'pccv_cs', 'pwmax', 'pwmin', 'pwmax_c', 'pwmin_c', 'epwmax', 'epwmin']
@@ -57,7 +74,7 @@ TIERS = {
 
 
 def consts(maxlen, mode, minlen=0, fixed=None):
-    fixed = FIXED if fixed is None else fixed
+    fixed = active_fixed() if fixed is None else fixed
     return dict(MaxLen=str(maxlen), MinLen=str(minlen), S=str(2 ** maxlen), NVec='2',
                 FrontEnds=tla({'ro', 'dro'}), ClassNames=tla(set(CLASSES)),
                 Scalars='{' + ', '.join('<<%d, %d>>' % k for k in SCALARS) + '}',
@@ -79,6 +96,7 @@ def _rec_key(r):
 def run(rep, tier, props):
     from harness import replay_curvature as rc      # pure-python part only (rsome is imported in the workers)
     cfg = TIERS[tier]
+    fixed_now = active_fixed()
     rng = random.Random(rep.seed)
     recs = {}
     with tlc.Scratch() as sc:
@@ -237,9 +255,9 @@ def run(rep, tier, props):
     # defects predicted from the transcription (Known_k) versus the real code
     pred = {}
     for kn in KNOWN_NAMES:
-        pred[kn] = dict(listed_as_repaired=kn in FIXED, states_replayed=known_states[kn],
+        pred[kn] = dict(listed_as_repaired=kn in fixed_now, states_replayed=known_states[kn],
                         cases_with_finding=known_confirmed[kn])
-        if kn not in FIXED and known_states[kn] > 0 and known_confirmed[kn] == 0:
+        if kn not in fixed_now and known_states[kn] > 0 and known_confirmed[kn] == 0:
             rep.note('spec lists defect %r as unrepaired but no replayed state tagged with it deviates from the ideal: '
                      'the transcription is out of step with the code (not an alarm)' % kn)
     rep.extra['predicted_defect_classes'] = pred
@@ -257,7 +275,7 @@ def run(rep, tier, props):
     rep.extra['curvature_transcription_drift'] = ndrift
     rep.extra['curvature_drift_kinds'] = dict(drift_kinds)
     rep.extra['curvature_over_rejections'] = dict(notes)
-    rep.extra['fixed_flags'] = sorted(FIXED)
+    rep.extra['fixed_flags'] = sorted(fixed_now)
     shown = 0
     for job, rs in zip(jobs, results):
         r = job['rec']
